@@ -158,8 +158,16 @@ func argStr(b []byte) string {
 }
 
 // obsStr: large observations travel as length + digest
+// observations longer than this travel as length + digest (VERIF_NODIGEST=1 keeps them whole, for debugging)
+var digestAbove = func() int {
+	if os.Getenv("VERIF_NODIGEST") != "" {
+		return 1 << 30
+	}
+	return 1024
+}()
+
 func obsStr(b []byte) string {
-	if len(b) > 1024 {
+	if len(b) > digestAbove {
 		return fmt.Sprintf("#%08x%016x", len(b), digest(b))
 	}
 	return hx(b)
